@@ -47,21 +47,24 @@ type ckpt struct {
 }
 
 type sim struct {
-	c     *core.RunCtx
-	t     *core.Tape
-	cfg   cfg
-	cl    *nodeh.Cluster
-	nval  int
-	cks   []*ckpt
-	index uint64
+	c          *core.RunCtx
+	t          *core.Tape
+	cfg        cfg
+	cl         *nodeh.Cluster
+	nval       int
+	cks        []*ckpt
+	index      uint64
 	latestSnap uint64
-	nrestore int
-	nbackup  int
+	nrestore   int
+	nbackup    int
 	// kill-at-point machinery
 	hits    int
 	tripped bool
 	done    bool
 	parkCh  chan struct{}
+	stallCh chan struct{} // a backup goroutine held at stallAt (not a kill)
+	stallAt string
+	stalled bool
 	inOp    bool
 }
 
@@ -204,14 +207,22 @@ func (s *sim) bubble() {
 	s.parkCh = make(chan struct{})
 	defer cl.Close()
 	defer func() { rockredis.VerifPointHook = nil; close(s.parkCh) }()
-	if g.killPoint != "" {
-		rockredis.VerifPointHook = func(name string, dataDir string) {
-			if name == g.killPoint && s.inOp && !s.tripped && !s.done && !cl.Stopping && strings.HasPrefix(dataDir, cl.M[0].Dir) {
-				s.hits++
-				if s.hits == g.killHit {
-					s.tripped = true
-					<-s.parkCh
-				}
+	rockredis.VerifPointHook = func(name string, dataDir string) {
+		if cl.Stopping || !strings.HasPrefix(dataDir, cl.M[0].Dir) {
+			return
+		}
+		if s.stallCh != nil && name == s.stallAt && !s.stalled {
+			// a slow backup goroutine (held up by the checkpoint directory lock,
+			// by removing an old directory, by the scheduler)
+			s.stalled = true
+			<-s.stallCh
+			return
+		}
+		if g.killPoint != "" && name == g.killPoint && s.inOp && !s.tripped && !s.done {
+			s.hits++
+			if s.hits == g.killHit {
+				s.tripped = true
+				<-s.parkCh
 			}
 		}
 	}
@@ -359,17 +370,54 @@ func (s *sim) backup() {
 		st.SetLatestSnapIndex(s.latestSnap)
 	}
 	s.inOp = true
+	// sometimes the backup goroutine is slow at one of its steps: the apply
+	// loop goes on as soon as WaitReady lets it
+	s.stalled, s.stallAt = false, ""
+	if s.cfg.killPoint == "" {
+		switch s.t.Choose(6) {
+		case 0:
+			s.stallAt = "backup.beforeCheckpoint"
+		case 1:
+			s.stallAt = "backup.beforeSave"
+		}
+		if s.stallAt != "" {
+			s.stallCh = make(chan struct{})
+		}
+	}
 	bi := st.Backup(k.term, k.index)
 	if bi == nil {
 		s.inOp = false
+		s.stallCh = nil
 		c.Log("backup", "%d busy", k.index)
 		return
 	}
 	// production: WaitReady (checkpoint started) in the apply loop, GetResult asynchronously
 	done := make(chan struct{})
+	ready := make(chan struct{})
 	var err error
-	go func() { bi.WaitReady(); _, err = bi.GetResult(); close(done) }()
+	go func() { bi.WaitReady(); close(ready); _, err = bi.GetResult(); close(done) }()
 	synctest.Wait()
+	dumpAtReady := ""
+	if s.stallCh != nil {
+		if s.stalled {
+			c.Fault("backup_goroutine_stalled")
+			select {
+			case <-ready:
+				// the apply loop was released while the backup goroutine is still
+				// held: it applies the next entries now. The checkpoint still has
+				// to be the state as of index i.
+				c.Probe("applied_more_while_backup_goroutine_stalled")
+				dumpAtReady = s.dump()
+				for n := 1 + s.t.Choose(3); n > 0; n-- {
+					s.write()
+				}
+			default:
+			}
+		}
+		close(s.stallCh)
+		s.stallCh = nil
+		synctest.Wait()
+	}
 	// let the purge that follows the save finish
 	s.cl.Sleep(10 * time.Millisecond)
 	s.inOp = false
@@ -390,6 +438,9 @@ func (s *sim) backup() {
 	// into the store before the checkpoint, nothing is written between the
 	// backup and this read
 	k.dump = s.dump()
+	if dumpAtReady != "" {
+		k.dump = dumpAtReady
+	}
 	k.hash = dirHash(s.ckDir(k))
 	s.cks = append(s.cks, k)
 	s.nbackup++
